@@ -168,6 +168,8 @@ def run_case(arg):
                     if list(map(float, b.training_loss)) != list(map(float, h.training_loss)) or list(map(float, b.validation_loss)) != list(map(float, h.validation_loss)):
                         out["viol"].append((f"RoundTripEqual|{tag}", f"FlowHistory losses {h.training_loss} reload as {b.training_loss!r}"))
                 else:
+                    if c["real"] and c["npops"] > 23:
+                        return out
                     if c["real"]:
                         r = smcdrv.run_smc(dict(N=6, ns=c["ns"], adaptive=False, n_steps=max(1, c["npops"]), seed=3,
                                                 dtype="float64" if c["ns"] != "torch" else "float32"))
@@ -181,11 +183,12 @@ def run_case(arg):
                         for t in range(c["npops"]):
                             i = np.arange(1, 5, dtype=np.float64) + t
                             h.sample_history.append(SMCSamples(np.stack([i, -i], axis=1), log_likelihood=2 * i, log_prior=-i, log_q=0.5 * i, beta=0.25 * t, xp=xp))
-                        h.beta = [0.25, 1.0][: c["npops"]]
-                        h.ess = [3.5, 2.25][: c["npops"]]
-                        h.log_norm_ratio = [-1.5, 0.75][: c["npops"]]
-                        h.log_norm_ratio_var = [0.125, 0.5][: c["npops"]]
-                        h.mcmc_acceptance = [0.5][: c["npops"]]
+                        m = c["npops"]
+                        h.beta = [(t + 1) / m for t in range(m)]
+                        h.ess = [3.5 - t / 64.0 for t in range(m)]
+                        h.log_norm_ratio = [-1.5 + 0.25 * t for t in range(m)]
+                        h.log_norm_ratio_var = [0.125 * (t + 1) for t in range(m)]
+                        h.mcmc_acceptance = [0.5 / (t + 1) for t in range(max(0, m - 1))]
                     with h5py.File(path, "w") as f:
                         h.save(f)
                     with h5py.File(path, "r") as f:
